@@ -250,6 +250,30 @@ def main(argv):
                                 "    outer: do i = 1, n\n      if (a(i) > 0) then\n        where (a > 1)\n          a = 1\n        end where\n      else\n        forall (i = 1:n)\n          a(i) = 0\n"
                                 "        end forall\n      end if\n    end do outer\n    associate (b => a(1))\n      b = 2\n    end associate\n    select case (n)\n    case (1)\n      a = 3\n    end select\n"
                                 "    do 30 i = 1, n\n      a(i) = 4\n30  continue\n    do 40 i = 1, n\n40  a(i) = 5\n  end subroutine s\nend module c\n")
+        nested["named"] = ("subroutine nm(a, n)\n  integer :: n, i\n  real :: a(n)\n  lp: do i = 1, n\n    chk: if (a(i) > 0) then\n      a(i) = 1\n    else if (a(i) < 0) then chk\n"
+                           "      a(i) = 2\n    else chk\n      a(i) = 3\n    end if chk\n  end do lp\n  pick: select case (n)\n  case (1) pick\n    a = 4\n  case default pick\n    a = 5\n"
+                           "  end select pick\n  wh: where (a > 0)\n    a = 6\n  elsewhere wh\n    a = 7\n  end where wh\n  as: associate (b => a(1))\n    b = 8\n  end associate as\n"
+                           "  fa: forall (i = 1:n)\n    a(i) = 9\n  end forall fa\nend subroutine nm\n")
+        # an END statement whose construct name differs from the opening one (or is dropped where the opener has one)
+        for name in ("named",):
+            lines = nested[name].splitlines()
+            for li, line in enumerate(lines):
+                m = _re2.match(r"^(\s*end\s*(?:if|do|select|where|associate|forall)\s+)(\w+)\s*$", line, _re2.I)
+                if not m:
+                    continue
+                for newname in (m.group(2) + "x", "zz", ""):
+                    src = "\n".join(lines[:li] + [(m.group(1) + newname).rstrip()] + lines[li + 1:]) + "\n"
+                    cases += 1
+                    for std in ("f2003", "f2008"):
+                        try:
+                            t = parse(src, std)
+                            fail("parser#end_name_must_agree", dict(program=name, std=std, line=(m.group(1) + newname).strip(), source=src), dict(accepted_as=str(t)[:200]))
+                        except FortranSyntaxError:
+                            pass
+                        except SystemExit:
+                            fail("parser#end_name_must_agree", dict(program=name, std=std, line=(m.group(1) + newname).strip(), exception="SystemExit", source=src), "process exit requested")
+                        except BaseException as e:  # noqa
+                            fail("parser#end_name_must_agree", dict(program=name, std=std, line=(m.group(1) + newname).strip(), source=src), "raised %s" % type(e).__name__)
         for name, text in nested.items():
             lines = text.splitlines()
             std = "f2008" if name in F2008_EXTRA else "f2003"
